@@ -34,3 +34,22 @@ def limbs(v):
         out.append(v & 0x7FFF)
         v >>= 15
     return out
+
+
+def forced_portable():
+    """context manager: make load_module use xdis's own unmarshaller even for the host's bytecode version, unless
+    VERIF_LOAD_MODE=auto (then the native marshal fast path is taken when file version = host version)"""
+    import xdis.load as xload
+
+    @contextlib.contextmanager
+    def cm():
+        if os.environ.get("VERIF_LOAD_MODE", "portable") == "auto":
+            yield
+            return
+        saved = xload.PYTHON_MAGIC_INT
+        xload.PYTHON_MAGIC_INT = -1
+        try:
+            yield
+        finally:
+            xload.PYTHON_MAGIC_INT = saved
+    return cm()
